@@ -74,6 +74,10 @@ pub struct UniverseFile {
     pub strs: Vec<String>,
     pub addrs: Vec<UAddr>,
     pub events: Vec<UEvent>,
+    /// concrete created_at = ts * tscale (0 / absent = 1): lets a universe reach beyond 32 bits of seconds while the
+    /// specification keeps small integers (TLC's are 32-bit); order and equality of times are preserved
+    #[serde(default)]
+    pub tscale: u64,
 }
 
 pub struct Universe {
@@ -160,7 +164,7 @@ impl Universe {
                 *x = (e.id as u8).wrapping_mul(7).wrapping_add(j as u8);
             }
             let content: Vec<u8> = (0..e.clen).map(|j| b'a' + ((j + e.id) % 26) as u8).collect();
-            let ev = build_event(&ids[e.id - 1], e.kind, &pubkeys[e.au - 1], &sig, &tb, e.ts, &content);
+            let ev = build_event(&ids[e.id - 1], e.kind, &pubkeys[e.au - 1], &sig, &tb, e.ts * f.tscale.max(1), &content);
             assert_eq!(ev.0.len(), e.size, "universe size mismatch for event {}", e.id);
             events.push(ev);
         }
@@ -255,8 +259,9 @@ pub fn build_filter(u: &Universe, f: &AFilter) -> Vec<u8> {
     b.extend_from_slice(&[0, 0]);
     let limit: u32 = if f.limit >= INF { u32::MAX } else { f.limit as u32 };
     b.extend_from_slice(&limit.to_ne_bytes());
-    let since: u64 = if f.since >= INF { u64::MAX } else { f.since as u64 };
-    let until: u64 = if f.until >= INF { u64::MAX } else { f.until as u64 };
+    let sc = u.f.tscale.max(1);
+    let since: u64 = if f.since >= INF { u64::MAX } else { f.since as u64 * sc };
+    let until: u64 = if f.until >= INF { u64::MAX } else { f.until as u64 * sc };
     b.extend_from_slice(&since.to_ne_bytes());
     b.extend_from_slice(&until.to_ne_bytes());
     for i in f.ids.iter() {
@@ -729,7 +734,8 @@ impl<'u> Driver<'u> {
                 let addr = u.addr(a);
                 del_addr.push(match st.naddr_is_deleted_asof(&addr) {
                     Ok(Some(t)) => {
-                        let t = t.as_u64();
+                        let sc = u.f.tscale.max(1);
+                        let t = if t.as_u64() % sc == 0 { t.as_u64() / sc } else { t.as_u64() };
                         if t >= INF as u64 { INF } else { t as i64 }
                     }
                     Ok(None) => -1,
